@@ -4,7 +4,7 @@
 #![allow(dead_code)]
 use super::*;
 use crate::kv::*;
-use crate::{kv_cover, kv_end};
+use crate::{kv_assert, kv_cover, kv_end};
 
 #[derive(Clone, Copy, PartialEq)]
 pub(crate) enum Fill {
@@ -84,16 +84,16 @@ pub(crate) fn b_forget(b: Buffer) {
 
 /// InvT.G3 for one buffer, at witness indices
 pub(crate) fn assert_buffer_inv(b: &Buffer) {
-    assert!(b.rows >= 1 && b.cols >= 1, "[C02][C01] a buffer always has at least one row and one column");
-    assert!(b.lines.len() >= b.rows, "[C02][C01] lines() is never shorter than rows");
+    kv_assert!(b.rows >= 1 && b.cols >= 1, "[C02][C01] a buffer always has at least one row and one column");
+    kv_assert!(b.lines.len() >= b.rows, "[C02][C01] lines() is never shorter than rows");
     let i = any_usize();
     assume(i < b.lines.len());
-    assert!(b.lines[i].cells.len() == b.cols, "[C02][C01] every line has exactly cols cells");
-    assert!(!b.lines[b.lines.len() - 1].wrapped, "[C02][C01] the last line is never marked soft-wrapped");
+    kv_assert!(b.lines[i].cells.len() == b.cols, "[C02][C01] every line has exactly cols cells");
+    kv_assert!(!b.lines[b.lines.len() - 1].wrapped, "[C02][C01] the last line is never marked soft-wrapped");
     if let Some(l) = &b.scrollback_limit {
-        assert!(l.hard == l.soft.saturating_add(l.soft / 10), "[C13][C01] the hard limit is the soft limit plus 10%");
+        kv_assert!(l.hard == l.soft.saturating_add(l.soft / 10), "[C13][C01] the hard limit is the soft limit plus 10%");
         if b.lines.len() - b.rows > l.hard {
-            assert!(b.trim_needed, "[C13][C01][C06] exceeding the retention bound is always flagged for trimming (so that the limit holds and the alternate screen keeps none)");
+            kv_assert!(b.trim_needed, "[C13][C01][C06] exceeding the retention bound is always flagged for trimming (so that the limit holds and the alternate screen keeps none)");
         }
     }
 }
@@ -103,15 +103,15 @@ pub(crate) fn assert_buffer_inv(b: &Buffer) {
 pub(crate) fn t_buffer_new_any_limit() {
     let limit = any_usize();
     let b = Buffer::new(1, 1, Some(limit), None);
-    assert!(b.lines.len() == 1 && b.lines[0].cells.len() == 1 && !b.trim_needed, "[C01][C02] a fresh buffer holds exactly the visible rows");
+    kv_assert!(b.lines.len() == 1 && b.lines[0].cells.len() == 1 && !b.trim_needed, "[C01][C02] a fresh buffer holds exactly the visible rows");
     match &b.scrollback_limit {
         Some(l) => {
-            assert!(l.soft == limit && l.hard >= l.soft, "[C13] the configured limit is kept, with a slack that never wraps around");
+            kv_assert!(l.soft == limit && l.hard >= l.soft, "[C13] the configured limit is kept, with a slack that never wraps around");
             if limit <= usize::MAX / 2 {
-                assert!(l.hard == limit + limit / 10, "[C13] the hard limit is the soft limit plus 10%");
+                kv_assert!(l.hard == limit + limit / 10, "[C13] the hard limit is the soft limit plus 10%");
             }
         }
-        None => assert!(false, "[C13] a configured limit is not dropped"),
+        None => kv_assert!(false, "[C13] a configured limit is not dropped"),
     }
     kv_cover!(limit > (1usize << 62), "huge limit");
     kv_cover!(limit == 0, "limit 0");
@@ -132,7 +132,7 @@ pub(crate) fn t_rpos(cols: usize, rows: usize, sb: usize) {
     let r = any_in(0, rows - 1);
     let log = b.logical_position((c, r), cols, rows);
     let rel = b.relative_position(log, cols, rows);
-    assert!(rel.0 == c && rel.1 == r as isize, "[C10] translating the cursor to its logical position and back is the identity at a fixed width");
+    kv_assert!(rel.0 == c && rel.1 == r as isize, "[C10] translating the cursor to its logical position and back is the identity at a fixed width");
     // the logical column counts the cells of the wrapped rows before it
     let abs = n - rows + r;
     let mut k = 0usize;
@@ -141,7 +141,7 @@ pub(crate) fn t_rpos(cols: usize, rows: usize, sb: usize) {
         k += 1;
         i -= 1;
     }
-    assert!(log.0 == c + k * cols, "[C10] the logical column counts whole rows of the same logical line");
+    kv_assert!(log.0 == c + k * cols, "[C10] the logical column counts whole rows of the same logical line");
     kv_cover!(k >= 2, "third row of a logical line");
     kv_end!();
     std::mem::forget(b);
